@@ -545,13 +545,13 @@ func callSSA(i *interpreter, caller *frame, callpos token.Pos, fn *ssa.Function,
 	}
 	i.depth++
 	defer func() { i.depth-- }()
-	if i.depth > 4000 {
+	if i.depth > 12000 {
 		if i.path.mustTerminate != "" {
 			// the harness demanded termination: endless recursion (natively a
 			// fatal stack overflow) is a failed assertion, not a bound
 			i.path.abort(abBudget, "call depth")
 		}
-		i.path.unsupported("interpreted call depth exceeds 4000 (unbounded recursion in the program?)")
+		i.path.unsupported("interpreted call depth exceeds 12000 (unbounded recursion in the program?)")
 	}
 	if fn.Parent() == nil {
 		name := fn.String()
